@@ -13,6 +13,8 @@ W_TREE = [
     (("ro",), None), (("ro", "a.txt"), b"ro-a"), (("ro", "rw"), None), (("ro", "rw", "b.txt"), b"rw-b"), (("ro", "rw", "deep"), None),
     (("ro", "rw", "deep", "ro2"), None), (("ro", "rw", "deep", "ro2", "c.txt"), b"ro2-c"), (("wo",), None), (("wo", "d.txt"), b"wo-d"),
     (("none",), None), (("none", "e.txt"), b"none-e"), (("free",), None), (("free", "a.txt"), b"free-a"), (("top.txt",), b"top"),
+    # the same relative spelling below two working directories, under entries that differ
+    (("free", "wo"), None), (("free", "wo", "d.txt"), b"free-wo-d"), (("free", "ro"), None), (("free", "ro", "a.txt"), b"free-ro-a"),
 ]
 W_DIRS = ["/", "/ro", "/ro/rw", "/ro/rw/deep/ro2", "/wo", "/none", "/free"]
 W_NAMES = ["a.txt", "b.txt", "c.txt", "d.txt", "e.txt", "top.txt", "new.bin", "newdir"]
